@@ -78,7 +78,7 @@ static cell_t* cell_find(uintptr_t key, int create) {
 }
 static void det_cell(uintptr_t key, int iswrite, uint32_t pc) {
     cell_t* c = cell_find(key, 1); if (!c) return; thr_t* t = &T[me];
-    if (c->wclk && c->wtid != me && c->wclk > t->vc[c->wtid]) report_race(c->wpc, 1, pc, iswrite);
+    if (c->wclk && c->wtid != me && c->wclk > t->vc[c->wtid]) { report_race(c->wpc, 1, pc, iswrite); if (getenv("SCH_DEBUG")) fprintf(stderr, "race addr=%lx w by t%d clk %u pc %x ; now t%d %s pc %x knows clk %u of t%d (NT=%d)\n", (unsigned long)key << 3, c->wtid, c->wclk, c->wpc, me, iswrite ? "w" : "r", pc, t->vc[c->wtid], c->wtid, NT); }
     if (iswrite) { for (int u = 0; u < DET_T; u++) if (u != me && c->rclk[u] > t->vc[u]) report_race(c->rpc[u], 0, pc, 1);
         c->wclk = t->vc[me]; c->wtid = (uint8_t)me; c->wpc = pc; memset(c->rclk, 0, sizeof c->rclk); }
     else { c->rclk[me] = t->vc[me]; c->rpc[me] = pc; }
@@ -141,7 +141,10 @@ static void* thread_main(void* arg);
 static int new_thread(int is_worker, int master, int slot) {
     if (NT >= SCH_MAXT) die(SCH_TOO_MANY_POINTS, "more than %s%ld logical threads", "", SCH_MAXT);
     int t = NT++; memset(&T[t], 0, sizeof T[t]); T[t].is_worker = is_worker; T[t].master = master; T[t].slot = slot; T[t].state = ST_IDLE; T[t].vc[t] = 1;
-    pthread_attr_t at; pthread_attr_init(&at); pthread_attr_setstacksize(&at, 256 << 10); pthread_attr_setdetachstate(&at, PTHREAD_CREATE_DETACHED);
+    /* every logical thread gets its own stack for the whole execution: a stack recycled by libpthread from a finished thread
+     * would make the detector compare two unrelated lives of the same addresses */
+    static char STACKS[SCH_MAXT][256 << 10] __attribute__((aligned(4096)));
+    pthread_attr_t at; pthread_attr_init(&at); pthread_attr_setstack(&at, STACKS[t], sizeof STACKS[t]); pthread_attr_setdetachstate(&at, PTHREAD_CREATE_DETACHED);
     if (pthread_create(&T[t].th, &at, thread_main, (void*)(intptr_t)t)) die(SCH_CHILD_DIED, "pthread_create failed%s%ld", "", 0);
     return t;
 }
@@ -273,6 +276,7 @@ size_t mcs_ZSTD_decompressDCtx(ZSTD_DCtx* c, void* dst, size_t cap, const void* 
     if (g_on) { g_busy_ctx[me] = NULL; if (r <= cap) access_hook(dst, r, 1, PC()); }
     return r;
 }
+int mcs_fclose(FILE* f) { shadow_clear(f, 8); return fclose(f); }      /* the FILE object is recycled by libc */
 void* mcs_malloc(size_t n) { return malloc(n); }
 void* mcs_calloc(size_t a, size_t b) { return calloc(a, b); }
 void mcs_free(void* p) { if (p) shadow_clear(p, malloc_usable_size(p)); free(p); }
